@@ -295,7 +295,7 @@ fn cmd_replay_beh(a: &Args) {
 					"inc12" => {
 						ctx.incremental("c12", stream::Frag::Whole, &mut viols);
 						ctx.incremental("c12", stream::Frag::Fixed(1 + (idx + vi) % 7), &mut viols);
-						ctx.incremental("c12", stream::Frag::Random(seed ^ idx as u64), &mut viols);
+						ctx.incremental("c12", stream::Frag::RandomIntr(seed ^ idx as u64), &mut viols);
 					}
 					"inc13" => ctx.incremental("c13", stream::Frag::Whole, &mut viols),
 					"rows" => ctx.rowview(&mut viols),
